@@ -691,10 +691,13 @@ def execute_structure(chk, prefix="C09"):
             order_ok = len(subs) == n and all(e.args[1] == exes[i] and e.args[0] == ctx for i, e in enumerate(subs))
             chk.prove(f"{prefix}.exec.one_submission_per_branch", s.pc, order_ok, desc="each branch is submitted exactly once, in input order, with the executor context and its executable")
             sh = [e for e in s.trace if e.kind == "shutdown"]
-            flags_ok = len(sh) == 1 and sh[0].kwargs.get("wait") is False and sh[0].kwargs.get("cancel_futures") is True
+            # wait=False is what the statement of C09 needs ("without waiting for branches that are still running").  cancel_futures=True is no longer
+            # required: since fix 5c1c00f a queued branch that starts after the completion is stopped by raise_if_orphaned before any user code
+            # runs (C10.child.checked_before_user), so dropping the flag breaks no property (seeded/retired/C10-m2)
+            flags_ok = len(sh) == 1 and sh[0].kwargs.get("wait") is False
             wait_i = kinds.index("event_wait") if "event_wait" in kinds else -1
             chk.prove(f"{prefix}.exec.no_join", s.pc, flags_ok and wait_i >= 0 and kinds.index("shutdown") > wait_i,
-                      desc="execute waits for the completion event only, then leaves through shutdown(wait=False, cancel_futures=True): it does not wait for running branches, and queued ones never start", sample=f"execute with 2 branches: {kinds}")
+                      desc="execute waits for the completion event only, then leaves through shutdown(wait=False): it does not wait for running branches", sample=f"execute with 2 branches: {kinds}")
             if k == "val":
                 cr = [e for e in s.trace if e.kind == "create_result"]
                 chk.prove(f"{prefix}.exec.result_from_states", s.pc, len(cr) == 1 and kinds.index("create_result") > wait_i, desc="the result is built from the branch states as they are after the completion event")
@@ -703,6 +706,12 @@ def execute_structure(chk, prefix="C09"):
                 chk.prove(f"{prefix}.exec.raise_after_event", s.pc, isinstance(v, Ref) and v in [x for x in stored if isinstance(x, Ref)] and wait_i >= 0,
                           desc="execute raises only a suspend / fatal exception stored by a callback, and only after the completion event")
     return None
+
+
+def _replay_branch_summary(inputs):
+    from pyvc.check import native
+    r_ = native("branch_summary_replay.py", {})
+    return bool(r_.get("confirmed")), r_
 
 
 def item_in_child_context(chk, prefix="C08"):
@@ -719,7 +728,7 @@ def item_in_child_context(chk, prefix="C08"):
     ctx = st.alloc("opaque:DurableContext", {"_parent_id": parent, "state": state})
     st_cls = P.cls("lambda_service.OperationSubType")
     self_ = st.alloc(P.cls(CE), {"name_prefix": fresh("str", "name_prefix"), "item_serdes": eng.sym_of_type("str | None", "item_serdes", st), "serdes": eng.sym_of_type("str | None", "serdes", st),
-                                 "sub_type_iteration": fresh("enum", "sub_type_iteration", st_cls), "summary_generator": None})
+                                 "sub_type_iteration": fresh("enum", "sub_type_iteration", st_cls), "summary_generator": OpaqueFn("batch_summary_generator")})
 
     class H(ExecHooks):
         def opaque_call(self, eng_, s, fn, args, kwargs):
@@ -775,6 +784,13 @@ def item_in_child_context(chk, prefix="C08"):
                           ops.values_equal(s, name, Sym("str", z3.Concat(ops.zstr(s.get(self_)["name_prefix"]), ops.int_to_str(index.t)))))
             cfg = s.get(ch[0].config)
             goal = z3.And(goal, ops.values_equal(s, cfg["sub_type"], s.get(self_)["sub_type_iteration"]))
+            # C16: a branch is a child context of its own - the generator that summarises the BatchResult of the WHOLE map / parallel must not be
+            # applied to one branch's result (an oversized branch result would then fail the branch instead of being summarised and rebuilt)
+            sg = cfg.get("summary_generator")
+            branch_summary_ok = not (isinstance(sg, OpaqueFn) and sg.name == "batch_summary_generator")
+            chk.prove(f"{prefix}.branch.no_batch_summary_on_branch", s.pc, z3.BoolVal(branch_summary_ok),
+                      desc="the per-branch child configuration does not carry the batch-level summary generator (typed for the BatchResult of the whole map / parallel): an oversized branch result is recorded as a summary and rebuilt on replay, not failed",
+                      describe=lambda m: {"scenario": "map / parallel with the default configuration and one branch returning 300 KB"}, replay=_replay_branch_summary)
         chk.prove(f"{prefix}.branch.index_ids", s.pc, goal,
                   desc="branch i: id = id-for-logical-step(i) of the executor context (no counter involved), parent link = that context's parent id, a FRESH child context with parent id = the branch id runs the item, name = prefix + i, sub type = the iteration sub type; the replay tracker is told the branch id AFTER the branch's handler returned - also when the handler returned a recorded result without running the branch body",
                   sample="_execute_item_in_child_context for an arbitrary branch index")
